@@ -118,6 +118,13 @@ pub enum Class {
     /// memory for (a helper call that overwrites every caller-saved register, divisions, byte
     /// swaps, packet loads), then folds all 64 slots into the result: the stack is the program's alone
     StackFill,
+    /// loads packet bytes with ldabs/ldind, overwrites them with a plain store through the packet
+    /// pointer (r1 on a raw VM, the data slot on a fixed-metadata VM), loads them again: the second
+    /// load must see what is in the packet now
+    ProbePktReload,
+    /// a recursive local function whose depth (0-15) is the low nibble of the packet's first byte:
+    /// beyond the interpreter's limit of nested calls on some packets, shallow on others
+    DeepCall,
 }
 
 impl Class {
@@ -133,6 +140,8 @@ impl Class {
             Class::MetaStore => "MetaStore",
             Class::MetaRead => "MetaRead",
             Class::StackFill => "StackFill",
+            Class::ProbePktReload => "ProbePktReload",
+            Class::DeepCall => "DeepCall",
             Class::ProbeR1 => "ProbeR1",
             Class::ProbeSlotData => "ProbeSlotData",
             Class::ProbeSlotLen => "ProbeSlotLen",
@@ -185,6 +194,8 @@ impl Class {
             Class::MetaStore,
             Class::MetaRead,
             Class::StackFill,
+            Class::ProbePktReload,
+            Class::DeepCall,
         ] {
             if c.name() == s {
                 return Some(c);
@@ -1013,8 +1024,70 @@ fn ld_opcode(base: u8, w: u8) -> u8 {
         }
 }
 
-/// ld_abs of `w` bytes at packet offset idx. The interpreter bounds-checks 8 bytes whatever the
-/// width, so the probe is only ever run on packets of at least idx + 8 bytes.
+/// r0 = number of nested calls made = pkt[0] & 15 (then the trailer).
+pub fn gen_deep_call(tag: u8) -> Prog {
+    let mut b = B::new(tag);
+    b.i(LD_ABS_B, 0, 0, 0, 0); // 1
+    b.i(MOV64_REG, 6, 0, 0, 0); // 2
+    b.i(0x57, 6, 0, 0, 0x0f); // 3: and64 r6, 15
+    b.i(CALL, 0, 1, 0, 4); // 4 -> 4+1+4 = 9 (f)
+    b.trailer(tag); // 5, 6, 7
+    b.i(EXIT, 0, 0, 0, 0); // 8 (never reached)
+    assert_eq!(b.len(), 9);
+    b.i(0x55, 6, 0, 2, 0); // 9:  f: jne r6, 0, +2
+    b.i(MOV64_IMM, 0, 0, 0, 0); // 10
+    b.i(EXIT, 0, 0, 0, 0); // 11
+    b.i(0x17, 6, 0, 0, 1); // 12: sub64 r6, 1
+    b.i(CALL, 0, 1, 0, -5); // 13 -> 13+1-5 = 9
+    b.i(ADD64_IMM, 0, 0, 0, 1); // 14
+    b.i(EXIT, 0, 0, 0, 0); // 15
+    let mut p = mk(b.v, tag, Class::DeepCall);
+    p.min_pkt = 8;
+    p.local_call = true;
+    p
+}
+
+pub const RELOAD_XOR: u32 = 0x5a3c_a5c3;
+
+/// `w` is 1, 2 or 4. Expected result: the packet's bytes at idx xor RELOAD_XOR (truncated to w).
+pub fn gen_probe_pkt_reload(tag: u8, idx: usize, w: u8, ind: bool, fixed_doff: Option<usize>) -> Prog {
+    let mut b = B::new(tag);
+    match fixed_doff {
+        Some(d) => load_slot(&mut b, 7, 1, d), // r7 = packet pointer from the data slot
+        None => b.i(MOV64_REG, 7, 1, 0, 0),     // raw VM: r1 is the packet
+    }
+    b.i(ADD64_IMM, 7, 0, 0, idx as i32);
+    let load = |b: &mut B| {
+        b.i(MOV64_IMM, 0, 0, 0, -1);
+        if ind {
+            b.i(MOV64_IMM, 3, 0, 0, 3);
+            b.i(ld_opcode(LD_IND_B, w), 0, 3, 0, idx as i32 - 3);
+        } else {
+            b.i(ld_opcode(LD_ABS_B, w), 0, 0, 0, idx as i32);
+        }
+    };
+    load(&mut b);
+    b.i(0xa7, 0, 0, 0, RELOAD_XOR as i32); // xor64 r0, K
+    let stx = match w {
+        1 => 0x73,
+        2 => 0x6b,
+        _ => 0x63,
+    };
+    b.i(stx, 7, 0, 0, 0); // stx{b,h,w} [r7], r0
+    load(&mut b);
+    b.trailer(tag);
+    let mut p = mk(b.v, tag, Class::ProbePktReload);
+    p.p0 = idx as i64;
+    p.min_pkt = idx + w as usize;
+    p.w = w;
+    if let Some(d) = fixed_doff {
+        p.p1 = d as i64;
+    }
+    p
+}
+
+/// ld_abs of `w` bytes at packet offset idx. (The interpreter bounds-checks 8 bytes whatever the
+/// width: its answer is only judged on packets of at least idx + 8 bytes.)
 pub fn gen_probe_pkt_abs(tag: u8, idx: usize, w: u8) -> Prog {
     let mut b = B::new(tag);
     b.i(MOV64_IMM, 0, 0, 0, -1); // the load must replace all of r0, not only its low bytes
